@@ -28,6 +28,9 @@ func runC10(c *Ctx) {
 	L := c.L
 	L.buildSSA()
 	gen := pkgFuncs(L, genPkg)
+	// the error result exists whenever a scheduled provider is fallible (the flag is set per scheduled node in Build, not
+	// derived from a narrower walk), and the handler table follows that flag
+	ruleHandlerNeverNil(c, "C10.9")
 
 	// ---- C10.1 needed-only provenance
 	n := 0
